@@ -271,9 +271,17 @@ def null_pattern_cases(draw: st.DrawFn) -> dict:
     spec: dict = {"enums": [G.gen_enum_spec(draw, 0)], "dcs": []}
     inner_extra = [{"name": "n", "t": draw(st.sampled_from([{"k": "int"}, {"k": "str"}, {"k": "opt", "of": {"k": "float"}}]))}] if draw(st.booleans()) else []
     enum_t = draw(st.sampled_from([{"k": "enum", "e": 0}, {"k": "opt", "of": {"k": "enum", "e": 0}}, {"k": "list", "of": {"k": "enum", "e": 0}}]))
-    spec["dcs"].append({"name": "D0", "fields": [{"name": "color", "t": enum_t}, *inner_extra], "kw_only": False})
+    # Optional fields whose declared default is NOT None: an explicit None in a nested instance must stay None
+    dflt = draw(st.sampled_from([None, None, {"name": "lim", "t": {"k": "opt", "of": {"k": "int"}}, "default": {"v": 100, "factory": False}},
+                                 {"name": "lim", "t": {"k": "opt", "of": {"k": "str"}}, "default": {"v": "dflt", "factory": False}},
+                                 {"name": "lim", "t": {"k": "opt", "of": {"k": "list", "of": {"k": "int"}}}, "default": {"v": [1], "factory": True}},
+                                 {"name": "lim", "t": {"k": "opt", "of": {"k": "enum", "e": 0}}, "default": {"v": 0, "factory": False}}]))
+    where_dflt = draw(st.sampled_from(["inner", "mid", "both"]))
+    d0_extra = [dict(dflt)] if dflt and where_dflt in ("inner", "both") else []
+    d1_extra = [dict(dflt)] if dflt and where_dflt in ("mid", "both") else []
+    spec["dcs"].append({"name": "D0", "fields": [{"name": "color", "t": enum_t}, *inner_extra, *d0_extra], "kw_only": False})
     l2 = draw(st.sampled_from(_LINKS))
-    spec["dcs"].append({"name": "D1", "fields": [{"name": "name", "t": {"k": "str"}}, {"name": "inner", "t": _link_type(l2, 0)}], "kw_only": False})
+    spec["dcs"].append({"name": "D1", "fields": [{"name": "name", "t": {"k": "str"}}, {"name": "inner", "t": _link_type(l2, 0)}, *d1_extra], "kw_only": False})
     l1 = draw(st.sampled_from(_LINKS))
     top_fields = [{"name": "items", "t": _link_type(l1, 1)}]
     if draw(st.booleans()):
@@ -281,11 +289,23 @@ def null_pattern_cases(draw: st.DrawFn) -> dict:
     spec["dcs"].append({"name": "D2", "fields": top_fields, "kw_only": False})
     p1, p2 = draw(st.sampled_from(["none", "set", "mixed"])), draw(st.sampled_from(["none", "none", "set", "mixed"]))
 
+    def _lim(jv: dict, has: bool) -> dict:
+        if has:
+            how = draw(st.sampled_from(["none", "none", "omit", "value"]))
+            if how == "none":
+                jv["lim"] = None  # explicitly None although the declared default is something else
+            elif how == "omit":
+                jv.pop("lim", None)
+        return jv
+
     def inner() -> dict:
-        return G.gen_dc_value(draw, 0, spec)
+        return _lim(G.gen_dc_value(draw, 0, spec), bool(d0_extra))
 
     def mid() -> dict:
-        return {"name": draw(st.sampled_from(["", "m", "n"])), "inner": _pattern_value(draw, l2, p2, inner)}
+        jv_mid = {"name": draw(st.sampled_from(["", "m", "n"])), "inner": _pattern_value(draw, l2, p2, inner)}
+        if d1_extra:
+            jv_mid["lim"] = G.gen_value(draw, d1_extra[0]["t"], spec)
+        return _lim(jv_mid, bool(d1_extra))
 
     jv = {"items": _pattern_value(draw, l1, p1, mid)}
     if len(top_fields) > 1:
